@@ -6,12 +6,17 @@
       join);  (3) per-worker key→rows maps merged (GROUP BY, C04).  For each shape the result is
       proved equal to a sequential specification that mentions neither the number of workers nor a
       schedule, for EVERY cutting of the record range into contiguous chunks.
+  The number of workers itself comes from a shared counter of borrowed goroutine slots, so it depends on
+  what else is running; its bookkeeping (regenerated from goroutine_manager.go / flags.go on every run)
+  is proved to give 1 ≤ n ≤ --cpu in every reachable state, to keep count = Σ outstanding slots, and —
+  end to end — to hand the workers ranges that tile 0 … len-1 (`assigned_ranges_tile`).
 -/
 import Csvq.Lemmas.Group
 import Csvq.Props.C04
 import Csvq.Props.C13
+import Csvq.Lemmas.Slots
 namespace Csvq.C12
-open Csvq
+open Csvq Csvq.Slots
 
 /-- shape (1): slot-wise evaluation over any chunking is the sequential map -/
 theorem run_slots_indep {α β} (f : α → β) (chunks : List (List α)) :
@@ -63,6 +68,110 @@ theorem record_ranges_tile (len n : Nat) (hn : 0 < n) :
 theorem run_over_ranges_is_map {β} (f : Nat → β) (len n : Nat) (hn : 0 < n) :
     (List.range n).flatMap (fun k => (Csvq.ForkJoin.rrIndices len n k).map f) = (List.range len).map f := by
   rw [← record_ranges_tile len n hn, List.map_flatMap]
+
+/-! ## The worker number: regenerated bookkeeping (`Gen.assignRoutineNumber`, `release`, `taskDone`, `setCPU`) -/
+
+/-- `Flags.SetCPU` as regenerated from lib/option/flags.go: whatever value is requested (and whatever the
+    field held), the --cpu value of a session is between 1 and the number of cores -/
+theorem cpu_flag_bounds (i numCPU cpu0 : Int) (h : 1 ≤ numCPU) :
+    1 ≤ Gen.setCPU i numCPU cpu0 ∧ Gen.setCPU i numCPU cpu0 ≤ numCPU := by
+  simp only [Gen.setCPU]
+  constructor <;> (repeat' split) <;> omega
+
+/-- `GoroutineManager.AssignRoutineNumber` as regenerated from goroutine_manager.go: for every record
+    length, every minimum-per-core argument and every number of slots borrowed by other task managers,
+    a task manager gets at least one worker and at most --cpu workers -/
+theorem worker_number_bounds (len minReq cpu count fld : Int) (hc : 1 ≤ cpu) :
+    1 ≤ (Gen.assignRoutineNumber len minReq cpu count fld).1 ∧
+    (Gen.assignRoutineNumber len minReq cpu count fld).1 ≤ cpu :=
+  assign_fst_bounds len minReq cpu count fld hc
+
+/-- below twice the per-core minimum the work is not split at all -/
+theorem single_worker_below_threshold (len minReq cpu count fld : Int) (hc : 1 ≤ cpu)
+    (h0 : 0 ≤ len) (hm : 1 ≤ minReq) (hl : len < 2 * minReq) :
+    (Gen.assignRoutineNumber len minReq cpu count fld).1 = 1 := by
+  have hq : Int.fdiv len minReq ≤ 1 := by
+    rw [Int.fdiv_eq_ediv_of_nonneg _ (by omega)]
+    have : len / minReq < 2 := Int.ediv_lt_of_lt_mul (by omega) (by omega)
+    omega
+  have hnm : ¬ minReq < 1 := by omega
+  simp only [Gen.assignRoutineNumber, if_neg hnm]
+  generalize Int.fdiv len minReq = q at hq ⊢
+  (repeat' split) <;> omega
+
+/-- the bookkeeping invariant holds in every reachable state: the shared count is exactly the sum of the
+    slots the live task managers still have to give back -/
+theorem slots_invariant (ops : List Op) (h : CpuOk ops) : Inv (run init ops) := by
+  have gen : ∀ (s : St), Inv s → CpuOk ops → Inv (run s ops) := by
+    induction ops with
+    | nil => intro s hs _; exact hs
+    | cons op ops ih =>
+      intro s hs hc
+      have h1 : CpuOk [op] := by cases op <;> simp_all [CpuOk]
+      have h2 : CpuOk ops := by cases op <;> simp_all [CpuOk]
+      exact ih h2 (step s op) (inv_step s op hs h1) h2
+  exact gen init ⟨by decide, by intro g hg; cases hg⟩ h
+
+/-- the count never goes negative -/
+theorem count_never_negative (ops : List Op) (h : CpuOk ops) : 0 ≤ (run init ops).count := by
+  obtain ⟨hs, hp⟩ := slots_invariant ops h
+  rw [hs]
+  generalize (run init ops).mgrs = l at hp
+  induction l with
+  | nil => simp [Slots.sum]
+  | cons x xs ih =>
+    have := hp x List.mem_cons_self
+    have := ih (fun g hg => hp g (List.mem_cons_of_mem _ hg))
+    simp only [Slots.sum]; omega
+
+/-- nothing leaks: once every task manager has given all its slots back, the count is 0 again and the
+    next query gets the full --cpu -/
+theorem no_slot_leak (ops : List Op) (h : CpuOk ops) (hdone : ∀ g ∈ (run init ops).mgrs, g = 0) :
+    (run init ops).count = 0 := by
+  obtain ⟨hs, _⟩ := slots_invariant ops h
+  rw [hs]
+  generalize (run init ops).mgrs = l at hdone
+  induction l with
+  | nil => simp [Slots.sum]
+  | cons x xs ih =>
+    have := hdone x List.mem_cons_self
+    have := ih (fun g hg => hdone g (List.mem_cons_of_mem _ hg))
+    simp only [Slots.sum]; omega
+
+/-- the worker number of one and the same query DOES depend on what else is running (on the history of
+    the shared count) — the reason why every chunk theorem above is stated for every cutting -/
+theorem worker_number_depends_on_history :
+    numberIn (run init []) 1000 (-1) 4 = 4 ∧ numberIn (run init [.new 1000 (-1) 4]) 1000 (-1) 4 = 1 := by
+  decide
+
+/-- the index list of worker `k` as the loop of `GoroutineTaskManager.run` visits it, from the regenerated
+    `RecordRange` -/
+def genIndices (len n k : Int) : List Nat :=
+  let r := Gen.recordRange len n k
+  List.range' r.1.toNat (r.2.toNat - r.1.toNat)
+
+/-- END TO END, all from regenerated definitions: in every reachable state of the slot bookkeeping, for
+    every requested --cpu value on a machine with at least one core, every record length and every
+    minimum-per-core argument, the worker number that `NewGoroutineTaskManager` assigns is positive and
+    the ranges `RecordRange` gives those workers, concatenated in worker order, are exactly 0 … len-1 -/
+theorem assigned_ranges_tile (ops : List Op) (len : Nat) (minReq req numCPU cpu0 : Int) (hcpu : 1 ≤ numCPU) :
+    let n := numberIn (run init ops) len minReq (Gen.setCPU req numCPU cpu0)
+    1 ≤ n ∧ (List.range n.toNat).flatMap (fun (k : Nat) => genIndices len n k) = List.range len := by
+  intro n
+  have hb := (worker_number_bounds len minReq (Gen.setCPU req numCPU cpu0) (run init ops).count
+      Gen.managerInit.2 (cpu_flag_bounds req numCPU cpu0 hcpu).1).1
+  have hn1 : 1 ≤ n := hb
+  refine ⟨hn1, ?_⟩
+  have hcast : ((n.toNat : Nat) : Int) = n := Int.toNat_of_nonneg (by omega)
+  have hpos : 0 < n.toNat := by omega
+  rw [← record_ranges_tile len n.toNat hpos]
+  apply flatMap_congr'
+  intro k _
+  simp only [genIndices]
+  rw [← hcast, Csvq.C13.recordRange_source_tie len n.toNat k hpos]
+  simp only [Int.toNat_natCast, Csvq.ForkJoin.rrIndices, Csvq.ForkJoin.rrLo, Csvq.ForkJoin.rrHi]
+
+example : (List.range 3).flatMap (fun (k : Nat) => genIndices 10 3 k) = List.range 10 := by decide
 
 /-! non-vacuity -/
 example : ([[1, 2], [], [3]].map (List.filter (· > 1))).flatten = [1, 2, 3].filter (· > 1) := by decide
